@@ -285,6 +285,14 @@ func (l *SimLink) Deliver(d, n int) int {
 	return n
 }
 
+// SetCapacity changes the capacity of direction d (0 = unbounded).
+func (l *SimLink) SetCapacity(d, n int) {
+	l.mu.Lock()
+	l.dir[d].capacity = n
+	l.cond.Broadcast()
+	l.mu.Unlock()
+}
+
 // SetReadCap bounds what one Read of direction d's reader returns (0 = no bound).
 func (l *SimLink) SetReadCap(d, n int) {
 	l.mu.Lock()
